@@ -342,7 +342,12 @@ func genFastReadMap(w *codewriter, rwctx *golang.ReadWriteContext, varname strin
 		w.f("var %s %s", tmpk, rwctx.KeyCtx.TypeName)
 	}
 	w.f("var %s %s", tmpv, rwctx.ValCtx.TypeName)
-	genFastReadAny(w, rwctx.KeyCtx, tmpk, depth+1)
+	if rwctx.KeyCtx.Type.Category == parser.Category_Binary {
+		// a binary map key is a string in Go (same bytes on the wire)
+		genFastReadString(w, rwctx.KeyCtx.IsPointer, tmpk)
+	} else {
+		genFastReadAny(w, rwctx.KeyCtx, tmpk, depth+1)
+	}
 	genFastReadAny(w, rwctx.ValCtx, tmpv, depth+1)
 	w.f("%s[%s] = %s", varname, tmpk, tmpv)
 	w.f("}")
